@@ -30,7 +30,7 @@ RULE = ("cases = (system in {CR3BP, 42-D variational with selective flip, polyno
         "state (so 'did not move' is distinguishable from 'moved correctly'); distinct by full case")
 ASSUMPTIONS = [
     "accuracy budget of a fixed-step/symplectic run = 4 x its own self-convergence estimate |X_N - X_2N| + 1e-7*scale; adaptive runs (library default rtol=atol=1e-12, benign arcs) 1e-7*scale: the property is about direction and grids, integration accuracy itself is C02/C16",
-    "selective flipping (variational system, flip_indices=slice(36,42)): only the flipped, autonomous state block is asserted to follow the flow at -t; no claim is made on the unflipped block",
+    "selective flipping (variational system, flip_indices=slice(36,42)): the flipped, autonomous state block must follow the flow at -t; the unflipped matrix block is compared with the field _DirectedSystem documents (only listed components negated), no physical meaning is claimed for it",
     "a low-level integrator that raises on a descending grid has rejected it (any exception type)",
 ]
 logging.disable(logging.CRITICAL)
@@ -88,7 +88,7 @@ def _cr3bp_state(draw):
 def prop_case(draw, H, kinds):
     kind = draw(st.sampled_from(kinds))
     c = {"kind": kind}
-    if kind in ("rtbp", "rtbp-system", "var"):
+    if kind in ("rtbp", "rtbp-system", "var", "var-full"):
         c["x0"] = _cr3bp_state(draw)
     elif kind == "ham":
         c["H"] = H
@@ -111,7 +111,7 @@ def _reference(c, t_signed):
     from scipy.integrate import solve_ivp
     kind = c["kind"]
     t_signed = np.asarray(t_signed, float)
-    if kind in ("rtbp", "rtbp-system", "var"):
+    if kind in ("rtbp", "rtbp-system", "var", "var-full"):
         y0 = np.array(c["x0"], float)
         f = lambda t, y: O.field(y, MU_EM)
     elif kind == "ham":
@@ -138,6 +138,10 @@ def _lib_system_and_y0(c):
     if kind == "var":
         y0 = np.concatenate([np.eye(6).ravel(), np.array(c["x0"], float)])
         return S["var"], y0, slice(36, 42), slice(36, 42)
+    if kind == "var-full":
+        # the SAME system object with flip_indices=None (full time reversal of the 42-D autonomous system)
+        y0 = np.concatenate([np.eye(6).ravel(), np.array(c["x0"], float)])
+        return S["var"], y0, None, slice(36, 42)
     if kind == "ham":
         return hamsys(c["H"])[0], np.array(c["x0"], float), None, slice(0, 6)
     par = np.array(c["inst"]["par"], float)
@@ -164,7 +168,7 @@ def eval_prop(c, ctx):
     ref = _reference(c, fwd * grid)
     if ref is None or not np.all(np.isfinite(ref)) or np.max(np.abs(ref)) > 20:
         ctx.case(cls="prop:reference-unusable"); return
-    if c["kind"] in ("rtbp", "rtbp-system", "var"):
+    if c["kind"] in ("rtbp", "rtbp-system", "var", "var-full"):
         dense = _reference(c, fwd * np.linspace(0.0, c["tf"], 200))
         if dense is None or min(min(O.distances(r, MU_EM)) for r in dense) < 0.15 or np.max(np.abs(dense)) > 5:
             ctx.case(cls="prop:near-primary-skipped"); return
@@ -193,6 +197,38 @@ def eval_prop(c, ctx):
     y0 = np.array(c["x0"], float) if "x0" in c else np.array(c["inst"]["x0"], float)
     if not np.array_equal(X[0, obs], y0):
         ctx.fail("first-sample-not-initial-state:%s" % tag, c, "states[0] != y0")
+    # full time reversal of the variational system (flip_indices=None): the matrix block is the derivative of the
+    # backward flow, Phi(-t) = D phi_{-t}(x0)
+    if c["kind"] == "var-full" and c["method"] == "adaptive":
+        try:
+            _, Pref = O.flow_stm(np.array(c["x0"], float), fwd * c["tf"], MU_EM)
+            Plib = X[-1, :36].reshape(6, 6)
+            if not np.max(np.abs(Plib - Pref)) <= 1e-6 * max(1.0, float(np.max(np.abs(Pref)))):
+                ctx.fail("variational-full-reversal:matrix-block-is-not-D-flow(%st)" % ("-" if fwd == -1 else ""), c,
+                         "max |Phi_lib - D phi| = %.3g (|Phi| %.3g)" % (float(np.max(np.abs(Plib - Pref))), float(np.max(np.abs(Pref)))))
+                return
+        except Exception:
+            pass
+    # selective flipping (flip_indices=slice(36,42)): _DirectedSystem documents that only the derivatives of the listed
+    # components are negated; the matrix block must therefore solve Phi' = +F(x(-s)) Phi along the reversed path
+    # (reference: SciPy on that documented directed field built from the oracle's field and Jacobian)
+    if c["kind"] == "var" and c["method"] == "adaptive" and fwd == -1:
+        try:
+            from scipy.integrate import solve_ivp
+
+            def directed(s_, w):
+                x = w[:6]; P = w[6:].reshape(6, 6)
+                return np.concatenate([-O.field(x, MU_EM), (O.jacobian(x, MU_EM) @ P).ravel()])
+            w0 = np.concatenate([np.array(c["x0"], float), np.eye(6).ravel()])
+            so = solve_ivp(directed, (0.0, c["tf"]), w0, method="DOP853", rtol=1e-12, atol=1e-12)
+            Pref = so.y[6:, -1].reshape(6, 6)
+            Plib = X[-1, :36].reshape(6, 6)
+            if so.success and not np.max(np.abs(Plib - Pref)) <= 1e-6 * max(1.0, float(np.max(np.abs(Pref)))):
+                ctx.fail("selective-flip:unflipped-block-not-as-documented", c,
+                         "max |Phi_lib - Phi(documented directed field)| = %.3g (|Phi| %.3g)" % (float(np.max(np.abs(Plib - Pref))), float(np.max(np.abs(Pref)))))
+                return
+        except Exception:
+            pass
     # (2) meaning: the state at returned time -t is the flow at -t
     scale = max(1.0, float(np.max(np.abs(ref))))
     err = float(np.max(np.abs(X[:, obs] - ref)))
@@ -263,7 +299,7 @@ def grid_case(draw, H, kinds):
     c["span"] = draw(st.floats(0.3, 2.0))
     c["n"] = draw(st.sampled_from([2, 3, 9, 40, 40, 150, 150]))
     c["gs"] = draw(st.integers(0, 2 ** 31))
-    c["event"] = draw(st.sampled_from([False, True, "active", "active", "active"]))
+    c["event"] = draw(st.sampled_from([False, False, False, True, "active", "active"]))
     return c
 
 
@@ -431,6 +467,23 @@ def eval_grid(c, ctx):
             e_f = float(np.max(np.abs(np.asarray(sa.states, float)[:, obs] - ra)))
         except Exception:
             e_f = float("inf")
+        # the mirrored ascending run is itself a C10 subject ("samples are returned exactly at the requested times"):
+        # judge it against an a-priori global error bound 10*(h*Lam)^p*exp(L*span)*(|y|+1) with Lipschitz / frequency
+        # estimates of the instance, so that a defect shared by both runs cannot hide in the budget
+        if c["kind"] == "ham":
+            Lam = 4.0; mu_log = 1.0
+        else:
+            par = np.array(c["inst"]["par"], float)
+            A_ = par[0:9].reshape(3, 3)
+            nl = 2 * float(np.linalg.norm(par[9:27])) * scale + float(np.max(np.abs(par[30:33])))
+            Lam = max(float(np.linalg.norm(A_, 2)) + nl, float(par[33]))
+            # error growth is governed by the logarithmic norm (the linear part is a damped rotation), not by the Lipschitz constant
+            mu_log = max(0.0, float(np.max(np.linalg.eigvalsh(0.5 * (A_ + A_.T))))) + nl
+        apriori = 10.0 * (hmax * Lam) ** c["order"] * math.exp(min(mu_log * c["span"], 30.0)) * (scale + 1.0) + 1e-9 * scale
+        if c["method"] == "fixed" and np.isfinite(e_f) and e_f > apriori and hmax * Lam <= 0.5:
+            ctx.fail("samples-not-at-requested-times-or-inaccurate:%s:%s" % (tag, "nonuniform" if "nonuniform" in c["shape"] else "uniform"), c,
+                     "ascending grid of the same spacing: samples differ from the reference flow at the requested times by %.3g; a-priori bound for order %d, h=%.3g: %.3g" % (e_f, c["order"], hmax, apriori))
+            return
         if not e_f <= 0.02 * max(moved, 1e-3):
             ctx.classes["grid:too-coarse-for-accuracy-judgement"] += 1
             tol = float("inf")
@@ -474,7 +527,7 @@ def eval_grid(c, ctx):
 
 # each (system, direction) pair is a distinct numba function type and re-specialises every integrator
 # kernel, so shards are split by system kind: a shard compiles only what it uses.
-PLAN = [("prop", ["rtbp"]), ("prop", ["rtbp-system"]), ("prop", ["var"]), ("prop", ["ham"]),
+PLAN = [("prop", ["rtbp"]), ("prop", ["rtbp-system"]), ("prop", ["var", "var-full"]), ("prop", ["ham"]),
         ("prop", ["user-auto", "user-timedep"]), ("grid", ["user-auto", "user-timedep"]), ("grid", ["ham"])]
 
 
@@ -494,7 +547,7 @@ def run(ctx):
         if mode == "prop":
             explore(ctx, "prop-%d" % slot, prop_case(H, kinds), eval_prop, per_slot, shrink=False)
         else:
-            explore(ctx, "grid-%d" % slot, grid_case(H, kinds), eval_grid, per_slot, shrink=False)
+            explore(ctx, "grid-%d" % slot, grid_case(H, kinds), eval_grid, 2 * per_slot, shrink=False)
 
 
 def replay(ctx, payload):
